@@ -320,6 +320,28 @@ theorem remove_alias_spec [BEq α] [LawfulBEq α] (xs junk : List α) (i : Nat) 
   simp only [List.any_eq_true]
   exact ⟨xs[i], List.getElem_mem h, by simp⟩
 
+/-- searching a container for (a reference to) one of its own elements always succeeds -/
+theorem contains_alias [BEq α] [LawfulBEq α] (xs : List α) (i : Nat) (h : i < xs.length) : contains xs xs[i] = true :=
+  (contains_mem xs xs[i]).2 (List.getElem_mem h)
+
+/-- `find_opt(c, c[i])` / `index_of(c, c[i])`: the first occurrence, which is at or in front of position `i` -/
+theorem find_opt_alias [BEq α] [LawfulBEq α] (xs : List α) (i : Nat) (h : i < xs.length) :
+    ∃ j, findOpt xs xs[i] = some j ∧ indexOf xs xs[i] = some j ∧ j ≤ i ∧ xs[j]? = some xs[i] := by
+  rw [index_of_spec, find_opt_spec]
+  cases hj : xs.idxOf? xs[i] with
+  | none =>
+    rw [List.idxOf?, List.findIdx?_eq_none_iff] at hj
+    have := hj xs[i] (List.getElem_mem h)
+    simp at this
+  | some j =>
+    refine ⟨j, rfl, rfl, ?_, find_opt_valid xs xs[i] j (by rw [find_opt_spec, hj])⟩
+    rw [List.idxOf?, List.findIdx?_eq_some_iff_getElem] at hj
+    obtain ⟨_, _, hmin⟩ := hj
+    by_cases hle : j ≤ i
+    · exact hle
+    · have := hmin i (by omega)
+      simp at this
+
 /-! ## value categories: an lvalue source is left untouched, an rvalue source is consumed element by element -/
 
 theorem map_vc_spec (rv : Bool) (moved : α) (xs : List α) (f : α → β) :
